@@ -120,6 +120,23 @@ def run(ctx):
                  tag="sequenced stubs on two methods of one interface variable: all histories")
     ib = [b for b in ctx.behaviours(gi) if sum(1 for x in b if x["op"] == "Call") >= 2 and sum(1 for x in b if x["op"] == "Mock") >= 2]
     replay_family(ctx, "iface", ib, env={"GODEBUG": "clobberfree=1"}, batch=4000)
+    # sequences of INTERFACE-typed results (error values): every configured value must come back as itself, in order (records of
+    # the conversion driver, path sequence-*, judged by Trace_ArgConv: kind error, class concrete, required boxed)
+    cout = ctx.path("conv_seq.ndjson")
+    rc, o = ctx.run_bin(binary, "^TestVerifArgConv$", env={"VERIF_OUT": cout}, timeout=600)
+    recs = [l for l in (open(cout).read().splitlines() if os.path.exists(cout) else []) if '"sequence-' in l]
+    if rc != 0 or not recs:
+        ctx.violation("sequences of interface-typed results: the driver crashed: " + o[-600:], {"family": "conv", "kind": "crash", "tail": o[-1500:]})
+    else:
+        open(os.path.join(ctx.specdir(), "trace.ndjson"), "w").write("\n".join(recs) + "\n")
+        t = ctx.tlc("Trace_ArgConv", "Trace_ArgConv.cfg", workers=1, timeout=600, tag="judge %d interface-result sequences" % len(recs))
+        summ = [x for x in ctx.behaviours(t) if isinstance(x, dict) and x.get("summary")]
+        if not summ:
+            raise vlib.Broken("no summary from Trace_ArgConv: " + t["out"][-800:])
+        for what, idx in summ[0]["bad"]:
+            e = json.loads(recs[idx - 1])
+            ctx.violation("sequence of error results through %s: %s" % (e["path"], e["outcome"]), {"family": "conv", "kind": e["kind"], "class": e["class"], "path": e["path"], "outcome": e["outcome"]})
+        ctx.count(len(recs))
     # LONG sequences (Scale.tla: Returns of up to 64 results, calls in bursts of 1 / 3 / 20)
     life.scale(ctx, 60, 1200, ops={"SeqStub"})
     ctx.cov["exhaustive"] = True
